@@ -198,6 +198,7 @@ var c11ExecOps = []struct {
 	{`{{ .Promoted }}{{ .H }}`, c11T3{&C11Emb{1}, 2}},
 	{`{{ range i, v := s }}{{ i }}{{ v }}{{ end }}{{ try }}{{ nope }}{{ catch }}c{{ end }}`, nil},
 	{`{{ block b(p=1) }}[{{ p }}]{{ end }}{{ yield b(p=2) }}`, nil},
+	{`[{{ . }}]{{ isset(.F) }}`, nil}, // reads '.' without having been given any data
 }
 
 func c11Exec(t *Template, k int) string {
@@ -251,7 +252,7 @@ func H_C11_schedules() {
 }
 
 // H_C11_execAlone: two goroutines execute already parsed templates (symbolic choice among
-// nine: globals, missing names, fields resolved through the struct cache for the first
+// ten: globals, missing names, fields resolved through the struct cache for the first
 // time, include of a not yet loaded template, range, try/catch, block/yield) concurrently,
 // under every schedule in which the second starts at any synchronisation point of the
 // first (either order) plus (thorough tier) one further preemptive switch: no race,
@@ -324,4 +325,64 @@ func H_C11_execAlone() {
 	wg.Wait()
 	vfReach("done")
 	vfAssert(gotA == wantA && gotB == wantB, "each concurrent Execute produces exactly what it produces when run alone")
+}
+
+
+// H_C11_customDelims: two goroutines parse (GetTemplate / Parse) and execute templates of a
+// Set configured with custom action and comment delimiters: no unordered conflicting
+// accesses - in particular between a parser and its own lexer goroutine - and each result
+// equals the solo result.
+//
+//gosym:reach done
+//gosym:opts maxviol=200
+func H_C11_customDelims() {
+	mk := func() (*Set, *InMemLoader) {
+		l := NewInMemLoader()
+		l.Set("/t.jet", `a[[ g ]]<# c #>b{{x}}`)
+		l.Set("/u.jet", `[[ range i := s ]][[ i ]][[ end ]]<# d #>`)
+		s := NewSet(l, WithDelims("[[", "]]"), WithCommentDelims("<#", "#>"))
+		s.AddGlobal("g", 5)
+		return s, l
+	}
+	names := []string{"/t.jet", "/u.jet"}
+	a, b := ndChoice("t1", 2), ndChoice("t2", 2)
+	run := func(s *Set, k int) string {
+		t, err := s.GetTemplate(names[k])
+		if err != nil {
+			return "<parse error>"
+		}
+		var buf bytes.Buffer
+		vars := make(VarMap)
+		vars.Set("s", []int{7, 8})
+		if t.Execute(&buf, vars, nil) != nil {
+			return buf.String() + "<error>"
+		}
+		return buf.String()
+	}
+	soloSet, _ := mk()
+	wantA, wantB := run(soloSet, a), run(soloSet, b)
+	set, _ := mk()
+	reps := 1
+	if !vfSymbolic() {
+		reps = 100
+	}
+	vfRace(vfTier())
+	var gotA, gotB string
+	var wg sync.WaitGroup
+	wg.Add(2)
+	go func() {
+		defer wg.Done()
+		for k := 0; k < reps; k++ {
+			gotA = run(set, a)
+		}
+	}()
+	go func() {
+		defer wg.Done()
+		for k := 0; k < reps; k++ {
+			gotB = run(set, b)
+		}
+	}()
+	wg.Wait()
+	vfReach("done")
+	vfAssert(gotA == wantA && gotB == wantB, "each concurrent GetTemplate + Execute yields what it yields alone")
 }
